@@ -25,12 +25,30 @@ theorem tailToks_snoc_empty (els : List (List CT)) : tailToks (els ++ [[]]) fals
 def HeadOk (ts : List CT) : Prop :=
   ∃ t r, ts = t :: r ∧ t ≠ .code [93] ∧ t ≠ .code [41] ∧ t ≠ .code [125] ∧ t ≠ .code [44] ∧ t ≠ .code [58]
 
+/-- what may follow an expression without changing its reading: nothing, a literal, or a code token that does not continue a name
+(no `(`, no `=`, no `.attr`) -/
+def FollowOk (rest : List CT) : Prop := ∀ s r, rest = .code s :: r → s ≠ [40] ∧ s ≠ [61] ∧ isAttrTok s = false
+
 /-- what an element has to satisfy for the list reader: it reads back with any fuel above its own need, and starts properly -/
 structure ElemOk (ts : List CT) (r : RVal) (need : Nat) : Prop where
   head : HeadOk ts
-  reads : ∀ f, need ≤ f → ∀ rest, parseV f (ts ++ rest) = some (r, rest)
+  reads : ∀ f, need ≤ f → ∀ rest, FollowOk rest → parseV f (ts ++ rest) = some (r, rest)
 
 def isCloser (c : Str) : Prop := c = [93] ∨ c = [41] ∨ c = [125]
+
+theorem followOk_nil : FollowOk [] := by intro s r h; cases h
+theorem followOk_code {c : Str} {r : List CT} (h1 : c ≠ [40]) (h2 : c ≠ [61]) (h3 : isAttrTok c = false) : FollowOk (.code c :: r) := by
+  intro s r' h; cases h; exact ⟨h1, h2, h3⟩
+theorem followOk_lit {v : Option Str} {r : List CT} : FollowOk (.lit v :: r) := by intro s r' h; cases h
+theorem followOk_comma {r : List CT} : FollowOk (.code [44] :: r) := followOk_code (by decide) (by decide) (by decide)
+theorem followOk_colon {r : List CT} : FollowOk (.code [58] :: r) := followOk_code (by decide) (by decide) (by decide)
+theorem followOk_close {c : Str} (hc : isCloser c) {r : List CT} : FollowOk (.code c :: r) := by
+  rcases hc with h | h | h <;> subst h <;> exact followOk_code (by decide) (by decide) (by decide)
+theorem followOk_tail {close : Str} (hc : isCloser close) (els : List (List CT)) (tc : Bool) (rest : List CT) :
+    FollowOk (tailToks els tc ++ .code close :: rest) := by
+  cases els with
+  | nil => cases tc <;> simp [tailToks] <;> first | exact followOk_close hc | exact followOk_comma
+  | cons t r => simp [tailToks, List.flatMap_cons, COMMA_T]; exact followOk_comma
 
 theorem parseTail_close (f : Nat) (close : Str) (r : List CT) :
     parseTail (f + 1) close (.code close :: r) = some ([], false, r) := by
@@ -77,7 +95,7 @@ theorem parseTail_ok (close : Str) (hc : isCloser close) (need : Nat) :
     cases f with
     | zero => omega
     | succ f =>
-      have hread := h1.reads f (by simp at hf; omega) (tailToks (r.map (·.1)) tc ++ .code close :: rest)
+      have hread := h1.reads f (by simp at hf; omega) (tailToks (r.map (·.1)) tc ++ .code close :: rest) (followOk_tail hc _ _ _)
       have ihh := ih tc h2 f (by simp at hf ⊢; omega) rest
       have hne : t0 ≠ .code close := by
         rcases hc with h | h | h <;> subst h <;> assumption
@@ -93,7 +111,7 @@ theorem parseTail_ok (close : Str) (hc : isCloser close) (need : Nat) :
       exact thenTail_some _ _ _ _ _ _ ihh
 
 theorem ElemOk.mono {ts : List CT} {r : RVal} {n n' : Nat} (h : ElemOk ts r n) (hn : n ≤ n') : ElemOk ts r n' :=
-  ⟨h.head, fun f hf rest => h.reads f (by omega) rest⟩
+  ⟨h.head, fun f hf rest hrest => h.reads f (by omega) rest hrest⟩
 
 theorem parseTailStart_close (f : Nat) (close : Str) (r : List CT) :
     parseTailStart (f + 1) close (.code close :: r) = some ([], false, r) := by
@@ -121,7 +139,7 @@ theorem parseTailStart_ok (close : Str) (hc : isCloser close) (need : Nat) (p : 
   | succ f =>
     simp only at ht
     subst ht
-    have hread := h1.reads f (by omega) (tailToks (ps.map (·.1)) tc ++ .code close :: rest)
+    have hread := h1.reads f (by omega) (tailToks (ps.map (·.1)) tc ++ .code close :: rest) (followOk_tail hc _ _ _)
     have htail := parseTail_ok close hc need ps tc (fun q hq => h q (by simp [hq])) f (by omega) rest
     simp only [List.cons_append, List.append_assoc] at hread ⊢
     rw [parseTailStart_elem f close t0 hne, hread]
@@ -154,7 +172,7 @@ theorem num_read (lit : Str) (h : isNumTok lit = true) : ElemOk [.code lit] (.nu
     · intro e; injection e with e1; omega
     · intro e; injection e with e1; omega
     · intro e; injection e with e1; omega
-    · intro f hf rest
+    · intro f hf rest hrest
       cases f with
       | zero => omega
       | succ f =>
@@ -180,7 +198,7 @@ theorem kw_read (s : Str) (h : s = sNone ∨ s = sTrue ∨ s = sFalse ∨ s = sE
   · rcases h with h | h | h | h <;> subst h <;> decide
   · rcases h with h | h | h | h <;> subst h <;> decide
   · rcases h with h | h | h | h <;> subst h <;> decide
-  · intro f hf rest
+  · intro f hf rest hrest
     cases f with
     | zero => omega
     | succ f =>
@@ -191,19 +209,19 @@ theorem str_read (b : Bool) (c : Str) :
     ElemOk ((if b then [CT.code [98]] else []) ++ [.lit (some c)]) (.str b c) 1 := by
   cases b
   · refine ⟨headOk_lit _ _, ?_⟩
-    intro f hf rest
+    intro f hf rest hrest
     cases f with
     | zero => omega
     | succ f => simp [parseV]
   · refine ⟨headOk_code _ (by decide) (by decide) (by decide) (by decide) (by decide) _, ?_⟩
-    intro f hf rest
+    intro f hf rest hrest
     cases f with
     | zero => omega
-    | succ f => simp [parseV]
+    | succ f => simp [parseV, bytesLit, orElseR]
 
 theorem fspecial_read (n : Str) : ElemOk [.code sFloat, LP, .lit (some n), RP] (.fspecial n) 1 := by
   refine ⟨headOk_code _ (by decide) (by decide) (by decide) (by decide) (by decide) _, ?_⟩
-  intro f hf rest
+  intro f hf rest hrest
   cases f with
   | zero => omega
   | succ f => simp [parseV, sFloat, LP, RP, orElseR, floatSpecial]
@@ -260,16 +278,86 @@ theorem parseV_kwarg (f : Nat) (s : Str) (h : okName s = true) (r : List CT) :
     parseV (f + 1) (.code s :: .code [61] :: r) = asKw s (parseV f r) := by
   rw [parseV_name f s h]; rfl
 
+theorem attrTok_facts (a : Str) (h : isAttrTok a = true) : ∃ c l, a = 46 :: c :: l := by
+  match a, h with
+  | 46 :: c :: l, _ => exact ⟨c, l, rfl⟩
+
+/-- a name followed by nothing that continues it is the value of that name -/
+theorem afterName_bare (s : Str) (rest : List CT) (h : FollowOk rest) (pv : List CT → Option (RVal × List CT))
+    (pt : List CT → Option (List RVal × Bool × List CT)) : afterName s rest pv pt = some (.name s, rest) := by
+  cases rest with
+  | nil => rfl
+  | cons t r =>
+    cases t with
+    | lit v => rfl
+    | code c =>
+      obtain ⟨h1, h2, h3⟩ := h c r rfl
+      unfold afterName
+      split
+      · rename_i heq; injection heq with e1 e2; injection e1 with e1; exact absurd e1 h2
+      · rename_i heq; injection heq with e1 e2; injection e1 with e1; exact absurd e1 h1
+      · simp [bareName, h3]
+
+theorem afterName_attr (s a : Str) (ha : isAttrTok a = true) (rest : List CT) (pv : List CT → Option (RVal × List CT))
+    (pt : List CT → Option (List RVal × Bool × List CT)) : afterName s (.code a :: rest) pv pt = some (.name (s ++ a), rest) := by
+  obtain ⟨c, l, rfl⟩ := attrTok_facts a ha
+  unfold afterName
+  split
+  · rename_i heq; injection heq with e1 e2; injection e1 with e1; simp at e1
+  · rename_i heq; injection heq with e1 e2; injection e1 with e1; simp at e1
+  · simp [bareName, ha]
+
+/-- a name used as a value: `int`, `datetime.timezone.utc` -/
+theorem name_read (s : Str) (h : okName s = true) : ElemOk [.code s] (.name s) 1 := by
+  refine ⟨headOk_name s h _, ?_⟩
+  intro f hf rest hrest
+  cases f with
+  | zero => omega
+  | succ f =>
+    simp only [List.cons_append, List.nil_append]
+    rw [parseV_name f s h]; exact afterName_bare s rest hrest _ _
+
+/-- a name with an attribute fragment: `Color` `.RED` -/
+theorem attr_read (s a : Str) (h : okName s = true) (ha : isAttrTok a = true) : ElemOk [.code s, .code a] (.name (s ++ a)) 1 := by
+  refine ⟨headOk_name s h _, ?_⟩
+  intro f hf rest hrest
+  cases f with
+  | zero => omega
+  | succ f =>
+    simp only [List.cons_append, List.nil_append]
+    rw [parseV_name f s h]; exact afterName_attr s a ha rest _ _
+
+/-- a keyword name: any callable name, and `b` (the bytes prefix only when a literal follows it) -/
+def kwName (s : Str) : Bool := okName s || s == [98]
+
+theorem kwName_not_blank (s : Str) (h : kwName s = true) : isBlank s = false := by
+  simp only [kwName, Bool.or_eq_true, beq_iff_eq] at h
+  rcases h with h | h
+  · exact okName_not_blank s h
+  · subst h; rfl
+
+theorem parseV_kwargB (f : Nat) (r : List CT) :
+    parseV (f + 1) (.code [98] :: .code [61] :: r) = asKw [98] (parseV f r) := by
+  simp [parseV, bytesLit, orElseR, afterName]
+
 /-- `name = value` reads as a keyword item -/
-theorem kwarg_read (k : Str) (hk : okName k = true) (ts : List CT) (r : RVal) (n : Nat) (h : ElemOk ts r n) :
+theorem kwarg_read (k : Str) (hk : kwName k = true) (ts : List CT) (r : RVal) (n : Nat) (h : ElemOk ts r n) :
     ElemOk (.code k :: .code [61] :: ts) (.kwarg k r) (n + 1) := by
-  refine ⟨headOk_name k hk _, ?_⟩
-  intro f hf rest
+  simp only [kwName, Bool.or_eq_true, beq_iff_eq] at hk
+  refine ⟨?_, ?_⟩
+  · rcases hk with hk | hk
+    · exact headOk_name k hk _
+    · subst hk; exact headOk_code _ (by decide) (by decide) (by decide) (by decide) (by decide) _
+  intro f hf rest hrest
   cases f with
   | zero => omega
   | succ f =>
     simp only [List.cons_append]
-    rw [parseV_kwarg f k hk, h.reads f (by omega) rest]
+    have e : parseV (f + 1) (.code k :: .code [61] :: (ts ++ rest)) = asKw k (parseV f (ts ++ rest)) := by
+      rcases hk with hk | hk
+      · exact parseV_kwarg f k hk _
+      · subst hk; exact parseV_kwargB f _
+    rw [e, h.reads f (by omega) rest hrest]
     rfl
 
 /-- `name(item, ..., item)` reads as a call with the items in order -/
@@ -277,7 +365,7 @@ theorem call_read (name : Str) (hn : okName name = true) (ps : List (List CT × 
     (h : ∀ p ∈ ps, ElemOk p.1 p.2 n) :
     ElemOk (.code name :: LP :: (seqToks (ps.map (·.1)) false ++ [RP])) (.call name (ps.map (·.2))) (ps.length + 4 + n) := by
   refine ⟨headOk_name name hn _, ?_⟩
-  intro f hf rest
+  intro f hf rest hrest
   cases f with
   | zero => omega
   | succ f =>
@@ -332,10 +420,17 @@ def emptyDictSub : PyVal → Bool
 /-- a name that may be called in a placeholder: an identifier that is no keyword and not the bytes prefix -/
 def phName (s : Str) : Bool := isNameTok s && !(s == [98]) && !isKwTok s
 
-/-- the placeholders a depth limit prints (`Proofs/Shown.lean`: `phCall`, `phLit`) and what they denote: `name(...)` is the call
-of the name on Ellipsis, `[...]` a list and `{...}` a set holding Ellipsis, `(...)` a parenthesised Ellipsis -/
+/-- a fragment that carries code (neither a comment nor a string literal) -/
+def codeTok (t : Nat) : Bool := !(t == tComment) && !(t == tStr)
+
+/-- the identifier-style values and what they denote.  The placeholders a depth limit prints (`Proofs/Shown.lean`: `phCall`,
+`phLit`): `name(...)` is the call of the name on Ellipsis, `[...]` a list and `{...}` a set holding Ellipsis, `(...)` a
+parenthesised Ellipsis.  A name written as one fragment (`int`, `datetime.timezone.utc`: `identifier(...)`) or as a class and an
+attribute fragment (`Color` `.RED`: `classattr(cls, name)`) is the value of that name. -/
 def identPh (parts : List (Nat × Str)) : Option RVal :=
   match parts with
+  | [(t1, nm)] => if codeTok t1 && okName nm then some (.name nm) else none
+  | [(t1, nm), (t2, a)] => if codeTok t1 && codeTok t2 && okName nm && isAttrTok a then some (.name (nm ++ a)) else none
   | [(t1, nm), (t2, o), (t3, e), (t4, c)] =>
       if t1 == tFn && t2 == tPunct && t3 == tPunct && t4 == tPunct && o == [40] && e == sEll && c == [41] && phName nm
       then some (.call nm [.kw sEll]) else none
@@ -424,7 +519,7 @@ def inRdP : List (PyVal × PyVal) → Bool
   | (k, v) :: r => inRd k && inRd v && inRdP r
 def inRdK : List (Str × PyVal) → Bool
   | [] => true
-  | (k, v) :: r => okName k && inRd v && inRdK r
+  | (k, v) :: r => kwName k && inRd v && inRdK r
 end
 
 /-- a subclass instance denotes the call of its class on the underlying value -/
@@ -565,10 +660,10 @@ theorem dictPairToks_cons (p : PyVal × List CT × List CT) (ps : List (PyVal ×
     simp
 
 theorem pairWith_ok (f : Nat) (kt vt : List CT) (ek ev : RVal) (nk : Nat) (hk : ElemOk kt ek nk) (hv : ElemOk vt ev nk) (hf : nk ≤ f)
-    (rest : List CT) :
+    (rest : List CT) (hrest : FollowOk rest) :
     pairWith (fun t => parseV f t) (kt ++ COLON_T :: vt ++ rest) = some ((ek, ev), rest) := by
-  have h1 := hk.reads f hf (COLON_T :: vt ++ rest)
-  have h2 := hv.reads f hf rest
+  have h1 := hk.reads f hf (COLON_T :: vt ++ rest) followOk_colon
+  have h2 := hv.reads f hf rest hrest
   unfold pairWith
   simp only [List.append_assoc, List.cons_append] at h1 ⊢
   rw [h1]
@@ -591,6 +686,12 @@ theorem thenPairs_some (kv : RVal × RVal) (r1 : List CT) (k : List CT → Optio
   simp [thenPairs, h]
 
 /-- token pairs with their denotations -/
+theorem followOk_pairTail (ps : List (PyVal × List CT × List CT)) (rest : List CT) :
+    FollowOk (pairTail ps ++ .code [125] :: rest) := by
+  cases ps with
+  | nil => simp [pairTail]; exact followOk_close (Or.inr (Or.inr rfl))
+  | cons p r => simp [pairTail, List.flatMap_cons, COMMA_T]; exact followOk_comma
+
 structure PairOk (q : PyVal × List CT × List CT) (d : RVal × RVal) (n : Nat) : Prop where
   key : ElemOk q.2.1 d.1 n
   val : ElemOk q.2.2 d.2 n
@@ -617,7 +718,7 @@ theorem parsePairs_ok (n : Nat) : ∀ (ps : List ((PyVal × List CT × List CT) 
       subst ht
       have ihh := ih (fun q hq => h q (by simp [hq])) f (by simp at hf ⊢; omega) rest
       have hpw := pairWith_ok f (t0 :: tr0) vt ek ev n hp.key hp.val (by simp at hf; omega)
-        (pairTail (r.map (·.1)) ++ .code [125] :: rest)
+        (pairTail (r.map (·.1)) ++ .code [125] :: rest) (followOk_pairTail _ _)
       have e : pairTail (List.map (·.1) (((k, t0 :: tr0, vt), (ek, ev)) :: r)) ++ CT.code [125] :: rest =
           .code [44] :: t0 :: (tr0 ++ COLON_T :: vt ++ (pairTail (r.map (·.1)) ++ CT.code [125] :: rest)) := by
         simp [pairTail, COMMA_T, List.flatMap_cons]
@@ -780,7 +881,7 @@ theorem ph_call_read (nm : Str) (h : phName nm = true) : ElemOk [.code nm, LP, E
           simpa using this
     refine ⟨?_, ?_⟩
     · rcases hcases with rfl | rfl | rfl <;> exact headOk_code _ (by decide) (by decide) (by decide) (by decide) (by decide) _
-    · intro f hf rest
+    · intro f hf rest hrest
       cases f with
       | zero => omega
       | succ f =>
@@ -799,7 +900,7 @@ theorem ph_call_read (nm : Str) (h : phName nm = true) : ElemOk [.code nm, LP, E
 
 theorem ph_list_read : ElemOk [.code [91], ELL, .code [93]] (.list [.kw sEll]) 4 := by
   refine ⟨headOk_open 91 (Or.inl rfl) _, ?_⟩
-  intro f hf rest
+  intro f hf rest hrest
   cases f with
   | zero => omega
   | succ f =>
@@ -813,7 +914,7 @@ theorem ph_list_read : ElemOk [.code [91], ELL, .code [93]] (.list [.kw sEll]) 4
 
 theorem ph_paren_read : ElemOk [LP, ELL, RP] (.kw sEll) 4 := by
   refine ⟨headOk_open 40 (Or.inr (Or.inl rfl)) _, ?_⟩
-  intro f hf rest
+  intro f hf rest hrest
   cases f with
   | zero => omega
   | succ f =>
@@ -827,7 +928,7 @@ theorem ph_paren_read : ElemOk [LP, ELL, RP] (.kw sEll) 4 := by
 
 theorem ph_set_read : ElemOk [.code [123], ELL, .code [125]] (.set [.kw sEll]) 4 := by
   refine ⟨headOk_open 123 (Or.inr (Or.inr rfl)) _, ?_⟩
-  intro f hf rest
+  intro f hf rest hrest
   cases f with
   | zero => omega
   | succ f =>
@@ -849,9 +950,36 @@ theorem phName_not_blank (s : Str) (h : phName s = true) : isBlank s = false := 
     simp [isBlank, this]
 
 /-- the tokens of a placeholder read as what `identPh` says -/
+theorem attrTok_not_blank (a : Str) (h : isAttrTok a = true) : isBlank a = false := by
+  obtain ⟨c, l, rfl⟩ := attrTok_facts a h
+  simp [isBlank]
+
+theorem tkToks_code (t : Nat) (s : Str) (ht : codeTok t = true) (hs : isBlank s = false) : tkToks t s = [.code s] := by
+  simp only [codeTok, Bool.and_eq_true, Bool.not_eq_true'] at ht
+  simp [tkToks, ht.1, ht.2, cd, hs]
+
 theorem identPh_read (parts : List (Nat × Str)) (r : RVal) (h : identPh parts = some r) : ElemOk (identToks parts) r 6 := by
   unfold identPh at h
   split at h
+  · rename_i t1 nm
+    split at h
+    · rename_i hc
+      simp only [Bool.and_eq_true] at hc
+      cases h
+      have : identToks [(t1, nm)] = [.code nm] := by
+        simp [identToks, tkToks_code t1 nm hc.1 (okName_not_blank nm hc.2)]
+      rw [this]; exact (name_read nm hc.2).mono (by omega)
+    · cases h
+  · rename_i t1 nm t2 a
+    split at h
+    · rename_i hc
+      simp only [Bool.and_eq_true] at hc
+      obtain ⟨⟨⟨h1, h2⟩, hn⟩, ha⟩ := hc
+      cases h
+      have : identToks [(t1, nm), (t2, a)] = [.code nm, .code a] := by
+        simp [identToks, tkToks_code t1 nm h1 (okName_not_blank nm hn), tkToks_code t2 a h2 (attrTok_not_blank a ha)]
+      rw [this]; exact (attr_read nm a hn ha).mono (by omega)
+    · cases h
   · rename_i t1 nm t2 o t3 e t4 c
     split at h
     · rename_i hc
@@ -1014,7 +1142,7 @@ theorem canon_reads : (v : PyVal) → inRd v = true → ∀ (ctx : Ctx), Free ct
           have hk3 : kind = 0 ∨ kind = 1 ∨ kind = 2 := by omega
           rcases hk3 with rfl | rfl | rfl
           · refine ⟨headOk_open 91 (Or.inl rfl) _, ?_⟩
-            intro f hfu rest
+            intro f hfu rest hrest
             cases f with
             | zero => simp [needL] at hfu
             | succ f =>
@@ -1022,7 +1150,7 @@ theorem canon_reads : (v : PyVal) → inRd v = true → ∀ (ctx : Ctx), Free ct
               | zero => simp [needL] at hfu
               | succ f => simp [bracketToks, parseV_list, parseTailStart_close, asList]
           · refine ⟨headOk_open 40 (Or.inr (Or.inl rfl)) _, ?_⟩
-            intro f hfu rest
+            intro f hfu rest hrest
             cases f with
             | zero => simp [needL] at hfu
             | succ f =>
@@ -1033,7 +1161,7 @@ theorem canon_reads : (v : PyVal) → inRd v = true → ∀ (ctx : Ctx), Free ct
               simp [emptyCallToks, hf.any, builtin, seqName, nmSet, sSet, cd, isBlank]
             simp only [bne_self_eq_false, Bool.false_and, Bool.false_eq_true, if_false, Option.getD_none, this]
             refine ⟨headOk_code _ (by decide) (by decide) (by decide) (by decide) (by decide) _, ?_⟩
-            intro f hfu rest
+            intro f hfu rest hrest
             cases f with
             | zero => simp [needL] at hfu
             | succ f => simpa using parseV_set0 f rest
@@ -1053,7 +1181,7 @@ theorem canon_reads : (v : PyVal) → inRd v = true → ∀ (ctx : Ctx), Free ct
             simpa [elemPairs_fst, elemPairs_snd, eraseL] using this
           rcases hk3 with rfl | rfl | rfl
           · refine ⟨headOk_open 91 (Or.inl rfl) _, ?_⟩
-            intro f hfu rest
+            intro f hfu rest hrest
             cases f with
             | zero => simp at hfu
             | succ f =>
@@ -1062,7 +1190,7 @@ theorem canon_reads : (v : PyVal) → inRd v = true → ∀ (ctx : Ctx), Free ct
               rw [parseV_list, this]
               rfl
           · refine ⟨headOk_open 40 (Or.inr (Or.inl rfl)) _, ?_⟩
-            intro f hfu rest
+            intro f hfu rest hrest
             cases f with
             | zero => simp at hfu
             | succ f =>
@@ -1077,7 +1205,7 @@ theorem canon_reads : (v : PyVal) → inRd v = true → ∀ (ctx : Ctx), Free ct
           · have eT : ((nonEmpty? tr).isSome || ((2 : Nat) == 1 && xs'.isEmpty)) = (nonEmpty? tr).isSome := by simp
             rw [eT]
             refine ⟨headOk_open 123 (Or.inr (Or.inr rfl)) _, ?_⟩
-            intro f hfu rest
+            intro f hfu rest hrest
             cases f with
             | zero => simp at hfu
             | succ f =>
@@ -1088,7 +1216,7 @@ theorem canon_reads : (v : PyVal) → inRd v = true → ∀ (ctx : Ctx), Free ct
                 obtain ⟨t0, tr0, ht, _, _, hn3, _, _⟩ := hx.head
                 simp only at ht
                 have hread := hx.reads f (by simp at hfu ⊢; have := need_le_needL (x :: xs') x (by simp); omega)
-                  (tailToks (canonL ctx.nested xs') (nonEmpty? tr).isSome ++ .code [125] :: rest)
+                  (tailToks (canonL ctx.nested xs') (nonEmpty? tr).isSome ++ .code [125] :: rest) (followOk_tail (Or.inr (Or.inr rfl)) _ _ _)
                 have htail := parseTail_ok [125] (Or.inr (Or.inr rfl)) (needL (x :: xs')) (elemPairs ctx.nested xs')
                   (nonEmpty? tr).isSome (fun q hq => hpairs q (by simp [elemPairs, hq])) f
                   (by rw [elemPairs_length]; simp at hfu ⊢; omega) rest
@@ -1140,7 +1268,7 @@ theorem canon_reads : (v : PyVal) → inRd v = true → ∀ (ctx : Ctx), Free ct
           have hname : cd (builtin nmFrozenset).2 = [.code sFrozenset] := by simp [builtin, nmFrozenset, sFrozenset, cd, isBlank]
           simp only [Option.getD_none, hname, fsetR]
           refine ⟨headOk_code _ (by decide) (by decide) (by decide) (by decide) (by decide) _, ?_⟩
-          intro f hfu rest
+          intro f hfu rest hrest
           cases f with
           | zero => simp at hfu
           | succ f => simpa using parseV_fset0 f rest
@@ -1158,7 +1286,7 @@ theorem canon_reads : (v : PyVal) → inRd v = true → ∀ (ctx : Ctx), Free ct
         have hlist : ElemOk ([(bracketToks 0).1] ++ (canonW ctx.nested x none ++ tailToks (canonL ctx.nested xs') ((none : Option PS).isSome || (0 == 1 && xs'.isEmpty))) ++
             [(bracketToks 0).2]) (.list (eraseL (x :: xs'))) (xs'.length + 5 + needL (x :: xs')) := by
           refine ⟨headOk_open 91 (Or.inl rfl) _, ?_⟩
-          intro f hfu rest
+          intro f hfu rest hrest
           cases f with
           | zero => simp at hfu
           | succ f =>
@@ -1175,7 +1303,7 @@ theorem canon_reads : (v : PyVal) → inRd v = true → ∀ (ctx : Ctx), Free ct
           simp only [Option.getD_none, fsetR, callToks, hname, seqToks, bracketToks, beq_self_eq_true, if_true, Option.isSome_none, Bool.false_or,
             show ((0 : Nat) == 1) = false from rfl, Bool.false_and]
           refine ⟨headOk_code _ (by decide) (by decide) (by decide) (by decide) (by decide) _, ?_⟩
-          intro f hfu rest
+          intro f hfu rest hrest
           cases f with
           | zero => simp at hfu
           | succ f =>
@@ -1195,7 +1323,7 @@ theorem canon_reads : (v : PyVal) → inRd v = true → ∀ (ctx : Ctx), Free ct
       have hpp := pairPairs_ok kvs hkv ctx hf
       have hnone : ElemOk ([CT.code [123]] ++ dictPairToks (canonPairs ctx kvs) ++ [.code [125]]) (.dict (eraseP kvs)) (kvs.length + 4 + needP kvs) := by
         refine ⟨headOk_open 123 (Or.inr (Or.inr rfl)) _, ?_⟩
-        intro f hfu rest
+        intro f hfu rest hrest
         cases f with
         | zero => omega
         | succ f =>
@@ -1216,9 +1344,9 @@ theorem canon_reads : (v : PyVal) → inRd v = true → ∀ (ctx : Ctx), Free ct
               rw [dictPairToks_cons]
               simp only [List.append_assoc, List.cons_append]
               have hkread := hp1.key.reads f (by simp [needP] at hfu ⊢; omega)
-                (COLON_T :: (canonW ctx.nested v none ++ (pairTail ((pairPairs ctx kvs').map (·.1)) ++ CT.code [125] :: rest)))
+                (COLON_T :: (canonW ctx.nested v none ++ (pairTail ((pairPairs ctx kvs').map (·.1)) ++ CT.code [125] :: rest))) followOk_colon
               have hvread := hp1.val.reads f (by simp [needP] at hfu ⊢; omega)
-                (pairTail ((pairPairs ctx kvs').map (·.1)) ++ CT.code [125] :: rest)
+                (pairTail ((pairPairs ctx kvs').map (·.1)) ++ CT.code [125] :: rest) (followOk_pairTail _ _)
               have hrest := parsePairs_ok (needP ((k, v) :: kvs')) (pairPairs ctx kvs') (fun q hq => hpp q (by simp [pairPairs, hq])) f
                 (by rw [pairPairs_length]; simp at hfu ⊢; omega) rest
               simp only at hkread hvread
@@ -1293,11 +1421,11 @@ theorem canon_reads : (v : PyVal) → inRd v = true → ∀ (ctx : Ctx), Free ct
             have hname' : cd fn.2 = [.code sFrozenset] := by rw [hname]; simp [sFrozenset, cd, isBlank]
             simp only [callToks, hname', canonL, seqToks, hr, List.append_nil]
             refine ⟨headOk_code _ (by decide) (by decide) (by decide) (by decide) (by decide) _, ?_⟩
-            intro f hfu rest
+            intro f hfu rest hrest
             cases f with
             | zero => omega
             | succ f =>
-              have hread := ihx.reads (f + 1) (by simp [needL, needK] at hfu ⊢; omega) (RP :: rest)
+              have hread := ihx.reads (f + 1) (by simp [needL, needK] at hfu ⊢; omega) (RP :: rest) (followOk_close (Or.inr (Or.inl rfl)))
               rw [hr, herase] at hread
               simp only [List.cons_append] at hread
               rw [parseV_list] at hread
@@ -1344,7 +1472,7 @@ theorem canon_reads : (v : PyVal) → inRd v = true → ∀ (ctx : Ctx), Free ct
                 simp [identPh, strPhParts, tFn, tPunct, sEll, phName, isNameTok, nmStr, isKwTok, sNone, sTrue, sFalse]
               rw [herase]
               refine ⟨headOk_code _ (by decide) (by decide) (by decide) (by decide) (by decide) _, ?_⟩
-              intro f hfu rest
+              intro f hfu rest hrest
               simp only [need, needL, needK] at hfu
               cases f with
               | zero => omega
@@ -1393,7 +1521,7 @@ theorem canon_reads : (v : PyVal) → inRd v = true → ∀ (ctx : Ctx), Free ct
           obtain ⟨k, v⟩ := p
           intro hh
           simp only [inRdK, Bool.and_eq_true] at hh
-          simp only [canonKw, kwPairs, List.map_cons, ih hh.2, cd_name k (okName_not_blank k hh.1.1), EQ_T, List.cons_append, List.nil_append,
+          simp only [canonKw, kwPairs, List.map_cons, ih hh.2, cd_name k (kwName_not_blank k hh.1.1), EQ_T, List.cons_append, List.nil_append,
             List.singleton_append]
       by_cases hh : hugCall args kwargs = true
       · simp only [hh, if_true]
